@@ -13,10 +13,10 @@ import (
 type FontKind int
 
 const (
-	Type1WinAnsi      FontKind = iota // /Type1 Helvetica, /WinAnsiEncoding
-	TrueTypeMacRoman                  // /TrueType, /MacRomanEncoding, no font program
-	Type0Identity                     // /Type0 Identity-H, 2-byte codes, ToUnicode CMap
-	Type1Standard                     // /Type1 Times-Roman, no /Encoding (StandardEncoding); ASCII only
+	Type1WinAnsi     FontKind = iota // /Type1 Helvetica, /WinAnsiEncoding
+	TrueTypeMacRoman                 // /TrueType, /MacRomanEncoding, no font program
+	Type0Identity                    // /Type0 Identity-H, 2-byte codes, ToUnicode CMap
+	Type1Standard                    // /Type1 Times-Roman, no /Encoding (StandardEncoding); ASCII only
 )
 
 // Line is one shown string (one Tj at its own position).
@@ -33,6 +33,8 @@ type Page struct {
 	NoContents bool // page object without /Contents
 	MediaBox   [4]float64
 	Rotate     int
+	// ExtraTokens are appended verbatim to the page's content stream (e.g. dangling operands).
+	ExtraTokens []string
 }
 
 // Doc is a logical document.
@@ -201,6 +203,7 @@ func contentTokens(p Page, cm *cidMap) []string {
 		}
 		t = append(t, "Tj", "ET")
 	}
+	t = append(t, p.ExtraTokens...)
 	return t
 }
 
